@@ -129,3 +129,22 @@ val find_member :
 val ref_get_at : pelem list -> nat -> coq_N list -> (nat * nat) option
 
 val ref_get : coq_N list -> pelem list -> (nat * nat) option
+
+type item =
+| IOk of coq_N list * nat * nat
+| IErr
+| IEnd
+
+val item_rect : (coq_N list -> nat -> nat -> 'a1) -> 'a1 -> 'a1 -> item -> 'a1
+
+val item_rec : (coq_N list -> nat -> nat -> 'a1) -> 'a1 -> 'a1 -> item -> 'a1
+
+val arr_items : nat -> bool -> nat -> coq_N list -> item list
+
+val ref_array_iter : coq_N list -> item list
+
+val obj_items : nat -> bool -> nat -> coq_N list -> item list
+
+val ref_object_iter : coq_N list -> item list
+
+val merge : nat -> jv -> jv -> jv
